@@ -23,7 +23,7 @@ import (
 
 type entryT struct {
 	Name string `json:"name_quoted"`
-	Size string `json:"declared_size"` // honest | smaller | larger | huge-gomod | huge-license | huge-total
+	Size string `json:"declared_size"` // honest | smaller | zero | half | larger | huge-gomod | huge-license | huge-total
 	Dir  bool   `json:"directory_entry,omitempty"`
 }
 
@@ -67,6 +67,10 @@ func build(entries []ent) ([]byte, error) {
 			if declared > 0 {
 				declared--
 			}
+		case "zero":
+			declared = 0
+		case "half":
+			declared /= 2
 		case "larger":
 			declared += 5
 		case "huge-gomod", "huge-license":
@@ -198,7 +202,7 @@ func one(scratch string, modPath, vers string, entries []ent) (msg, class string
 	} else if uzErr == nil {
 		// dishonest declarations must make extraction fail, unless the lie is about an empty file
 		for _, e := range entries {
-			if e.size != "honest" && !strings.HasSuffix(e.name, "/") && !(e.size == "smaller" && len(e.content) == 0) {
+			if e.size != "honest" && !strings.HasSuffix(e.name, "/") && !((e.size == "smaller" || e.size == "zero" || e.size == "half") && len(e.content) == 0) {
 				return fmt.Sprintf("Unzip succeeded although entry %q declares a size that differs from its content", e.name), ""
 			}
 		}
@@ -260,7 +264,7 @@ func Run(r *fw.Run) {
 	scratch := r.Scratch()
 	r.Bounds["prefix_variants"] = prefixes
 	r.Bounds["paths"] = len(paths)
-	r.Bounds["declared_size_variants"] = []string{"honest", "smaller", "larger", "huge-gomod", "huge-license", "huge-total"}
+	r.Bounds["declared_size_variants"] = []string{"honest", "smaller", "zero", "half", "larger", "huge-gomod", "huge-license", "huge-total"}
 	r.Rule = "every archive of 1..2 entries over (6 prefix variants x 28 paths) and every archive of 3 correctly prefixed entries (quick: over 16 paths, thorough: all 28), each single entry also with every dishonest declared-size variant, and 9 module/version pairs: CheckZip and Unzip on the real archive in a per-case tmpfs sandbox whose target lies three levels deep; oracle: CheckZip == documented restrictions (reference), Unzip succeeds iff CheckZip accepts (honest sizes), dishonest sizes fail, the extracted tree equals the file entries, nothing is created outside the target. non-trivial = archive accepted and extracted"
 	r.Assume = []string{"Linux tmpfs; archive/zip of the standard library reads the archives"}
 	var names []string
@@ -277,7 +281,7 @@ func Run(r *fw.Run) {
 	mk := func(n string) ent { return ent{n, contentOf(n), "honest"} }
 	for i, a := range names {
 		jobs = append(jobs, job{goodMod, goodVers, []ent{mk(a)}})
-		for _, sz := range []string{"smaller", "larger", "huge-gomod", "huge-license", "huge-total"} {
+		for _, sz := range []string{"smaller", "zero", "half", "larger", "huge-gomod", "huge-license", "huge-total"} {
 			e := mk(a)
 			e.size = sz
 			jobs = append(jobs, job{goodMod, goodVers, []ent{e}})
